@@ -177,7 +177,24 @@ def sig_sort(ops, a):
     if a["crash"]:
         last = ops[min(len(a["out"]), len(ops) - 1)]
         return "sort:crash-in-%s%s" % (last.split()[-1], " count=0" if n == 0 else "")
-    return "sort:wrong-output"
+    msg = judge_sort(ops, a["out"])
+    return "sort:" + (msg.split(":", 1)[-1].strip()[:70] if msg else "model-diff")
+
+
+class OncePerSignature:
+    """vlib shrinks every failing case before it looks at the signature; when thousands of
+    cases fail for one reason that takes forever. The first case of a signature keeps it
+    (de-duplication + known-findings lookup); later cases of the same signature are numbered,
+    reported as further instances and so exhaust max_reports after at most 3 shrinks."""
+
+    def __init__(self, f):
+        self.f, self.seen = f, {}
+
+    def __call__(self, ops, a):
+        s = self.f(ops, a)
+        n = self.seen.get(s, 0) + 1
+        self.seen[s] = n
+        return s if n == 1 else "%s (instance %d)" % (s, n)
 
 
 # --------------------------------------------------------------------------
@@ -189,7 +206,7 @@ def gen_heap(ctx):
     rng = ctx.rng
     cases = []
     # (i-a) every key tuple over a small alphabet, every position removed, then drained
-    lim = [(3, 5), (2, 7)] if quick else [(3, 7), (4, 6), (2, 10)]
+    lim = [(3, 6), (2, 8), (4, 4)] if quick else [(3, 8), (4, 6), (2, 11), (5, 5)]
     seen = set()
     for m, L in lim:
         for n in range(1, L + 1):
@@ -203,7 +220,7 @@ def gen_heap(ctx):
                     cases.append(ops)
     # (i-b) every operation sequence of length L over a small op alphabet
     alpha = ["ins 0", "ins 1", "ins 2", "ext", "rm 0", "rm 1", "rm 2", "rml"]
-    L = 4 if quick else 6
+    L = 5 if quick else 6
     for seq in itertools.product(alpha, repeat=L):
         if seq[0][0] != "i":
             continue
@@ -213,7 +230,7 @@ def gen_heap(ctx):
         ops += ["dump", "size", "minkey"]
         cases.append(ops)
     # (ii) long random histories (growth past the initial capacity, phases of growth/shrink)
-    for _ in range(300 if quick else 6000):
+    for _ in range(1000 if quick else 12000):
         cap = rng.choice([0, 1, 1, 2, 3, 8])
         nk = rng.choice([1, 2, 3, 5, 20, 1000])
         n_ops = rng.choice([20, 60, 200, 600])
@@ -314,7 +331,7 @@ def gen_sort(ctx):
     rng = ctx.rng
     cases = []
     # (i-a) every array of length 0..L over an m-symbol alphabet, all five routines
-    lim = [(3, 7), (4, 5)] if quick else [(3, 9), (4, 8)]
+    lim = [(3, 8), (4, 6)] if quick else [(3, 10), (4, 9)]
     seen = set()
     for m, L in lim:
         for n in range(0, L + 1):
@@ -325,17 +342,17 @@ def gen_sort(ctx):
                 cases.append(sort_case(list(ks), keys_alg=ALGS[len(seen) % 5]))
     # (i-b) around the quick-sort cutoff (partition code runs for count >= 11): every
     # 2-symbol array (and 3-symbol in thorough) of these lengths
-    for m, ns in ([(2, [10, 11, 12])] if quick else [(2, [10, 11, 12, 13, 14]), (3, [11])]):
+    for m, ns in ([(2, [10, 11, 12, 13])] if quick else [(2, [10, 11, 12, 13, 14, 15, 16]), (3, [11, 12])]):
         for n in ns:
             for ks in itertools.product(range(m), repeat=n):
                 cases.append(sort_case(list(ks), algs=["quick", "merge", "shell"]))
     # (ii) random / structured arrays, sizes biased to the boundaries
     sizes = [9, 10, 11, 12, 13, 19, 20, 21, 22, 23, 31, 32, 33, 50, 64, 100, 127, 128, 129, 257]
-    for _ in range(400 if quick else 6000):
+    for _ in range(1500 if quick else 20000):
         n = rng.choice(sizes) if rng.random() < 0.8 else rng.randrange(0, 400)
         m = rng.choice([1, 2, 3, 4, 10, n + 1, n * n + 1, 2 ** 40])
         cases.append(sort_case(pattern(rng, n, rng.choice(KINDS), m), keys_alg=rng.choice(ALGS)))
-    big = [1000, 2000] if quick else [1000, 2500, 5000, 10000, 10000]
+    big = [1000, 2000] if quick else [1000, 2500, 5000, 10000, 10000, 10000]
     for n in big:
         for kind in (["random", "sawtooth", "reversed", "equal"] if quick else KINDS):
             m = rng.choice([3, 100, n, 2 ** 40])
@@ -383,10 +400,10 @@ def main(ctx):
         return
     cdir = os.path.join(vlib.VERIF, "corpus", "C10")
     vlib.seq_correspondence(ctx, hheap, dcmd, gen_heap(ctx), nontrivial=nontrivial_heap, keep_prefix=1,
-                            signature_of=sig_heap, label="tieB-heap", judge=judge_heap,
+                            signature_of=OncePerSignature(sig_heap), label="tieB-heap", judge=judge_heap,
                             corpus_dir=os.path.join(cdir, "heap"))
     vlib.seq_correspondence(ctx, hsort, dcmd, gen_sort(ctx), nontrivial=nontrivial_sort, keep_prefix=1,
-                            signature_of=sig_sort, label="tieB-sort", judge=judge_sort,
+                            signature_of=OncePerSignature(sig_sort), label="tieB-sort", judge=judge_sort,
                             corpus_dir=os.path.join(cdir, "sort"))
     ctx.cov["exhaustive"] = True
     ctx.cov["explanation"] = ("exhaustive=true refers to the bounded spaces (a)/(b) described in rule; "
